@@ -1363,6 +1363,11 @@ class Gen:
                 args = "{-()}"
             if r.chance(15) and not any("elemental" in p for p in prefixes):
                 suffix = " bind(c)" if dummies else ""
+                if not dummies and not self.avoid("no_empty_parens_before_bind"):
+                    # R1232: the binding spec needs the (empty) parentheses; fparser prints 'SUBROUTINE s BIND(C)'
+                    # without them (known finding C02-subroutine-bind-without-parens)
+                    args = "()"
+                    suffix = r.pick([" bind(c)", " bind(c, name = 'c_s')"])
             head = "%ssubroutine %s%s%s" % ("".join(p + " " for p in prefixes), nm, args, suffix)
             kw = "subroutine"
         sctx = self._sub(ctx, alt_return=("*" in dummies), dummies=bool([d for d in dummies if d != "*"]), module=False, subprogram=True,
